@@ -80,8 +80,10 @@ type SeqSpec struct {
 	MaxStates int
 	// Sweep: depth-1 only operations, tried from every reached state but never chained
 	Sweep []Op
-	// NoObserve disables the state dump (used by very large sweeps over read-only commands)
 	Proto int
+	// Long: deterministic long histories (table growth / shrink); every step is compared on
+	// reply and full observable state.
+	Long [][]Op
 }
 
 // ---- one transition on the implementation ------------------------------------------------
@@ -225,16 +227,29 @@ type seqExec struct {
 	model  *vm.Model
 	impl   *implRun
 	purged bool
+	ticks  int64
 }
 
+// do sends one command to model and implementation. The implementation's clock is the model's
+// millisecond clock plus a microsecond tick per command (real time never stands still between
+// two commands; exact-deadline coincidences are outside what the properties judge).
 func (x *seqExec) do(op Op) (vm.Reply, vm.Reply, error) {
 	if op.Advance != 0 {
 		x.model.Now += op.Advance
-		verifrt.SetNow(time.UnixMilli(x.model.Now).UTC())
 	}
+	x.ticks++
+	before := x.model.Now
+	verifrt.SetNow(time.UnixMilli(x.model.Now).UTC().Add(time.Duration(x.ticks%900) * time.Microsecond))
 	want := x.model.Exec(op.Sess, op.Args)
 	raw := x.impl.clients[op.Sess].Do(op.Args...)
 	got, err := vm.Parse1(raw)
+	if x.model.Now != before {
+		// the model let virtual time pass (a blocking command timed out): the implementation's
+		// clock must have arrived at the same instant
+		if d := verifrt.Now().UnixMilli() - x.model.Now; err == nil && (d < -1 || d > 1) {
+			err = fmt.Errorf("virtual time after a timed-out blocking command: implementation at %+d ms relative to the model", d)
+		}
+	}
 	return want, got, err
 }
 
@@ -316,7 +331,7 @@ func runTransition(spec *SeqSpec, init int, path []int, op Op, ops []Op) (out st
 			finished = true
 			return
 		}
-		if ok, why := vm.Match(want, got); !ok {
+		if ok, why := vm.MatchCmd(preModel, op.Sess, op.Args, want, got); !ok {
 			out = stepOutcome{Status: "mismatch", Sig: sigBase + "|reply|" + vm.Shape(want) + "->" + vm.Shape(got), Detail: fmt.Sprintf("%s: %s", op, why)}
 			finished = true
 			return
@@ -424,12 +439,79 @@ func panicSite(stk string) string {
 	return "?"
 }
 
+// runLong executes one long history step by step on a single instance.
+func runLong(spec *SeqSpec, idx int, beat func()) (res []seqOpResult) {
+	redisemu.VResetGlobals()
+	verifrt.SetNow(time.UnixMilli(epochMs).UTC())
+	model := vm.NewModel(epochMs)
+	model.NewSession()
+	model.NewSession()
+	x := &seqExec{spec: spec, model: model}
+	hist := spec.Long[idx]
+	step := 0
+	done := false
+	sched := verifrt.NewSched(nil)
+	sched.Horizon = 50000000
+	sched.Run(func() {
+		vi := redisemu.VNew("")
+		x.impl = &implRun{vi: vi}
+		x.impl.clients = append(x.impl.clients, vi.NewClient(), vi.NewClient())
+		for i, op := range hist {
+			step = i
+			beat()
+			pre := ""
+			tpl, _ := template(spec, model, 0, op.Args)
+			want, got, err := x.do(op)
+			if err != nil {
+				res = append(res, seqOpResult{Op: i, Status: "mismatch", Sig: fmt.Sprintf("long%d|%s|resp-parse", idx, tpl), Detail: fmt.Sprintf("step %d %s: %v", i, op, err)})
+				done = true
+				return
+			}
+			if ok, why := vm.Match(want, got); !ok {
+				res = append(res, seqOpResult{Op: i, Status: "mismatch", Sig: fmt.Sprintf("long%d|%s|reply|%s->%s", idx, tpl, vm.Shape(want), vm.Shape(got)), Detail: fmt.Sprintf("step %d %s: %s%s", i, op, why, pre)})
+				done = true
+				return
+			}
+			for _, p := range observation(spec, model, 1) {
+				w, g, err := x.do(p)
+				ptpl, _ := template(spec, model, 0, p.Args)
+				ok, why := false, ""
+				if err == nil {
+					ok, why = vm.Match(w, g)
+				} else {
+					why = err.Error()
+				}
+				if !ok {
+					if len(why) > 300 {
+						why = why[:300] + "..."
+					}
+					res = append(res, seqOpResult{Op: i, Status: "mismatch", Sig: fmt.Sprintf("long%d|%s|state|obs:%s", idx, tpl, ptpl), Detail: fmt.Sprintf("after step %d %s: %s: %s", i, op, p, why)})
+					done = true
+					return
+				}
+			}
+			res = append(res, seqOpResult{Op: i, Status: "ok", Succ: ""})
+		}
+		done = true
+	})
+	if !done {
+		tpl, _ := template(spec, model, 0, hist[step].Args)
+		kind := sched.Term.String()
+		if sched.Term == verifrt.TermPanic {
+			kind = "panic:" + panicSite(sched.PanicStk) + ":" + firstLine(fmt.Sprint(sched.PanicVal))
+		}
+		res = append(res, seqOpResult{Op: step, Status: "mismatch", Sig: fmt.Sprintf("long%d|%s|%s", idx, tpl, strings.SplitN(kind, ":", 3)[0]), Detail: fmt.Sprintf("step %d %s: %s", step, hist[step], kind)})
+	}
+	return
+}
+
 // ---- worker protocol ------------------------------------------------------------------------
 
 type seqTask struct {
 	Init  int   `json:"i"`
 	Path  []int `json:"p"`
 	Sweep bool  `json:"s,omitempty"` // run the sweep operations instead of the alphabet
+	Long  int   `json:"l,omitempty"` // 1-based index of a long history to run instead
 }
 
 type seqOpResult struct {
@@ -502,6 +584,19 @@ func seqWorker(spec *SeqSpec) {
 		cur.mu.Lock()
 		cur.task, cur.res = &t, nil
 		cur.mu.Unlock()
+		if t.Long > 0 {
+			res := runLong(spec, t.Long-1, func() {
+				cur.mu.Lock()
+				cur.beat++
+				cur.mu.Unlock()
+			})
+			cur.mu.Lock()
+			cur.task = nil
+			cur.mu.Unlock()
+			enc.Encode(seqTaskResult{Task: t, Res: res, Hang: -1})
+			outw.Flush()
+			continue
+		}
 		var res []seqOpResult
 		for i, op := range run {
 			cur.mu.Lock()
@@ -687,6 +782,37 @@ func runSeqCheck(spec *SeqSpec, tier string, rep *Report) {
 		return
 	}
 
+	// long deterministic histories
+	longSteps := 0
+	if len(spec.Long) > 0 {
+		go func() {
+			for i := range spec.Long {
+				tasks <- seqTask{Long: i + 1}
+			}
+		}()
+		for range spec.Long {
+			r := <-results
+			hist := spec.Long[r.Task.Long-1]
+			for _, or := range r.Res {
+				longSteps++
+				transitions++
+				if or.Status == "mismatch" {
+					tr := []string{fmt.Sprintf("long history %d, %d steps, failing at step %d", r.Task.Long-1, len(hist), or.Op)}
+					lo := or.Op - 5
+					if lo < 0 {
+						lo = 0
+					}
+					for _, o := range hist[lo : or.Op+1] {
+						tr = append(tr, o.String())
+					}
+					rep.add(or.Sig, or.Detail, tr)
+				}
+			}
+			if r.Hang >= 0 || r.Hang == -2 {
+				rep.add(fmt.Sprintf("long%d|hang-or-crash", r.Task.Long-1), "worker hung or died in a long history", nil)
+			}
+		}
+	}
 	// initial states count as states
 	for d := 0; d <= spec.Depth; d++ {
 		if len(frontier) == 0 {
@@ -711,17 +837,35 @@ func runSeqCheck(spec *SeqSpec, tier string, rep *Report) {
 	}
 	close(tasks)
 	wg.Wait()
-	rep.Coverage["states"] = states + nInit
-	rep.Coverage["transitions"] = transitions
-	rep.Coverage["traces_validated_against_impl"] = transitions
-	rep.Coverage["depth_completed"] = depthDone
-	rep.Coverage["alphabet_size"] = len(spec.Alphabet)
-	rep.Coverage["sweep_ops"] = len(spec.Sweep)
-	rep.Coverage["sweep_states"] = sweepDone
-	rep.Coverage["unspecified_steps"] = unspec
-	rep.Coverage["pruned_after_finding"] = pruned
-	rep.Coverage["blocked_outcomes_confirmed"] = blockedOK
-	rep.Coverage["distinct_reply_shapes"] = shapes
+	addCov := func(k string, n int) {
+		if old, ok := rep.Coverage[k].(int); ok {
+			n += old
+		}
+		rep.Coverage[k] = n
+	}
+	addCov("states", states+nInit)
+	addCov("transitions", transitions)
+	addCov("traces_validated_against_impl", transitions)
+	addCov("sweep_states", sweepDone)
+	addCov("long_history_steps", longSteps)
+	addCov("unspecified_steps", unspec)
+	addCov("pruned_after_finding", pruned)
+	addCov("blocked_outcomes_confirmed", blockedOK)
+	addCov("alphabet_size", len(spec.Alphabet))
+	addCov("sweep_ops", len(spec.Sweep))
+	if old, ok := rep.Coverage["depth_completed"].(int); !ok || depthDone < old {
+		rep.Coverage["depth_completed"] = depthDone
+	}
+	if old, ok := rep.Coverage["distinct_reply_shapes"].(map[string]int); ok {
+		for k, v := range shapes {
+			old[k] += v
+		}
+	} else {
+		rep.Coverage["distinct_reply_shapes"] = shapes
+	}
+	if old, ok := rep.Coverage["exhaustive"].(bool); ok {
+		exhaustive = exhaustive && old
+	}
 	rep.Coverage["exhaustive"] = exhaustive
 	rep.Coverage["rule"] = "BFS over reference-model states; every (state, operation) replayed on a fresh implementation instance and compared on reply and full observable state"
 }
